@@ -436,6 +436,27 @@ def request_cases():
     yield "request", "invalid-request", call(net_pool(), headers=[(b"Host", b"a"), (b"X-A", b"a\nb")]), "bad header value"
     yield "request", "invalid-request", call(net_pool(), method="POST", headers=[(b"Host", b"a"), (b"Content-Length", b"3")], content=b"too long body"), "declared length smaller than the body"
     yield "request", "invalid-request", call(net_pool(), method="POST", headers=[(b"Host", b"a"), (b"Content-Length", b"30")], content=b"short"), "declared length larger than the body"
+    # the same over HTTP/2, and a hand-built Request (pool.handle_request: no defaults are added) without Host
+    from .peers import H2ServerPeer
+
+    h2_pool = lambda: httpcore.ConnectionPool(network_backend=SimBackend(SimNet(World(default=lambda rec: H2ServerPeer()))), http1=False, http2=True)
+
+    def handle(pool, req):
+        try:
+            resp = pool.handle_request(req)
+            resp.read()
+            resp.close()
+            return {"cls": "ok", "mod": "", "hang": False, "status": resp.status}
+        except WouldHang:
+            return {"cls": "hang", "mod": "", "hang": True}
+        except BaseException as e:  # noqa
+            return {"cls": type(e).__name__, "mod": type(e).__module__.split(".")[0], "hang": False, "msg": str(e)[:80]}
+
+    yield "request", "invalid-request", call(h2_pool(), headers=[(b"Host", b"a"), (b"TE", b"gzip")]), "HTTP/2: TE other than trailers"
+    yield "request", "invalid-request", call(h2_pool(), method="POST", headers=[(b"Host", b"a"), (b"Content-Length", b"3")], content=b"too long body"), "HTTP/2: declared length smaller than the body"
+    yield "request", "invalid-request", handle(net_pool(), httpcore.Request("GET", "http://origin.test/x", headers=[(b"X-A", b"1")])), "HTTP/1.1: hand-built request without Host"
+    yield "request", "invalid-request", handle(h2_pool(), httpcore.Request("GET", "http://origin.test/x", headers=[(b"X-A", b"1")])), "HTTP/2: hand-built request without Host"
+    yield "request", "invalid-request", handle(h2_pool(), httpcore.Request("GET", "http://origin.test/x", headers=[])), "HTTP/2: hand-built request without any header"
     yield "request", "unsupported-scheme", call(net_pool(), url="ftp://origin.test/x"), "ftp scheme"
     yield "request", "unsupported-scheme", call(net_pool(), url=httpcore.URL(scheme=b"", host=b"a", target=b"/")), "empty scheme"
 
@@ -450,7 +471,7 @@ def validate(traces, accept="NoAccept"):
     return [r[0] for r in res], stats
 
 
-DEVS = {"A1": "SocksLibraryErrors", "A2": "H2LibraryErrorInBody", "A3": "PeerErrorReportedLocal", "A4": "StatusNotNumeric"}
+DEVS = {"A1": "SocksLibraryErrors", "A2": "H2LibraryErrorInBody", "A3": "PeerErrorReportedLocal", "A4": "StatusNotNumeric", "A5": "H2BodyLengthLeftToPeer"}
 
 
 def run(prop, tier):
